@@ -96,7 +96,16 @@ let report_oracle ci step clause op detail =
   incr n_oracle;
   Printf.printf "ORACLE-FAIL case=%d step=%d clause=%s op=[%s] %s\n" ci step clause op detail
 
+let dump_digests () =
+  match Sys.getenv_opt "MODELRUN_DIGESTS" with
+  | None -> ()
+  | Some path ->
+    let oc = open_out path in
+    Hashtbl.iter (fun k () -> Printf.fprintf oc "%s %d\n" (Digest.to_hex k) (if Hashtbl.mem nontrivial k then 1 else 0)) distinct;
+    close_out oc
+
 let print_stats () =
+  dump_digests ();
   Printf.printf "STATS cases=%d steps=%d mismatches=%d oracle_fails=%d distinct_states=%d nontrivial_states=%d\n"
     !n_cases !n_steps !n_mismatch !n_oracle (Hashtbl.length distinct) (Hashtbl.length nontrivial);
   let items = Hashtbl.fold (fun k v acc -> (k, v) :: acc) hist [] in
